@@ -44,6 +44,17 @@ def gen_cases(tier, seed):
 
 
 FIXED_FINITE = [
+    {  # union nested under a refined list, members of different minimum depth
+        "name": "fin_nested",
+        "abstracts": [{"name": "Stmt", "parent": None, "style": "abc"}, {"name": "Expr", "parent": None, "style": "abc"}],
+        "prods": [
+            {"name": "Ret", "parent": "Stmt", "fields": [["e", ["ref", "Expr"]]]},
+            {"name": "Block", "parent": "Stmt", "fields": [["body", ["ann", ["list", ["union", ["ref", "Expr"], ["ref", "Stmt"]]], ["ListSizeBetween", 1, 2]]]]},
+            {"name": "Lit", "parent": "Expr", "fields": [["v", ["ann", ["int"], ["IntRange", 0, 1]]]]},
+            {"name": "Var", "parent": "Expr", "fields": [["n", ["ann", ["str"], ["VarRange", ["x", "y"]]]]]},
+        ],
+        "start": "Stmt",
+    },
     {
         "name": "fin_arith",
         "abstracts": [{"name": "Root", "parent": None, "style": "abc"}],
